@@ -96,7 +96,18 @@ Definition run_cors (c impl : sexp) : sexp :=
     end in
   let cut := match mut with c0 :: _ => Z.to_nat (sx_int c0) | [] => List.length reqs end in
   let table_at (k : nat) := if Nat.leb cut k then t_after else t in
-  let res := map (fun kp => run_cors_one O cfg (table_at (fst kp)) (fst (snd kp)) (snd (snd kp)))
+  (* optionally the configured predicate changes its mind before request [cut2]: (cut2 accepted-origins) *)
+  let flip := sx_list (sx_nth 5 c) in
+  let cfg_after :=
+    match flip with
+    | [_; acc] => {| c_expose := c_expose cfg; c_headers := c_headers cfg; c_domains := c_domains cfg;
+                     c_func := sx_func (Lst [acc]); c_methods := c_methods cfg; c_maxage := c_maxage cfg;
+                     c_cookies := c_cookies cfg |}
+    | _ => cfg
+    end in
+  let cut2 := match flip with c0 :: _ => Z.to_nat (sx_int c0) | [] => List.length reqs end in
+  let cfg_at (k : nat) := if Nat.leb cut2 k then cfg_after else cfg in
+  let res := map (fun kp => run_cors_one O (cfg_at (fst kp)) (table_at (fst kp)) (fst (snd kp)) (snd (snd kp)))
                  (combine (seq 0 (List.length reqs)) (combine reqs (sx_list impl))) in
   let obs := map (fun x => fst (fst (fst x))) res in
   let vs := match res with
@@ -107,6 +118,7 @@ Definition run_cors (c impl : sexp) : sexp :=
   Lst [ Lst obs; Lst vs; A (L cls);
         Lst [ verdict "sequence_longer_than_one" (Nat.ltb 1 (List.length reqs));
               verdict "route_removed_in_between" (negb (Nat.eqb (List.length mut) 0));
+              verdict "predicate_changes_its_mind" (negb (Nat.eqb (List.length flip) 0));
               verdict "kf:K-C09-1" (existsb (fun x => snd x) res) ] ].
 
 (* ---- domain "route" (C01 C02 C03 C04 C14 C17 C18) ----
@@ -320,6 +332,8 @@ Definition run_allow (c impl : sexp) : sexp :=
         A (L cls);
         Lst [ verdict "kf:K-C17-1" multi;
               verdict "kf:K-C17-2" (unclean && match t_router t with Curly => true | Jsr311 => false end);
+              verdict "kf:K-C17-3" (existsb (fun w => existsb (fun r => negb (forallb (fun b => b) (r_conds r))) (s_routes w))
+                                            (t_services t));
               verdict "single_root_and_clean" (negb multi && negb unclean) ] ].
 
 (* ---- domain "twin" (C18): (oracles table request), impl = (obs under CurlyRouter, obs under RouterJSR311) ---- *)
@@ -389,6 +403,11 @@ Definition run_perm (c impl : sexp) : sexp :=
               | [] => true
               | o0 :: rest => forallb (fun o => sexp_eqb (obs_core o) (obs_core o0)) rest
               end in
+  (* the same through ServeHTTP: the 8th element of each build's observation *)
+  let same_serve := match iobs with
+                    | [] => true
+                    | o0 :: rest => forallb (fun o => sexp_eqb (sx_nth 7 o) (sx_nth 7 o0)) rest
+                    end in
   let tie := match t_router t with Curly => score_tie O t (tokenize (rq_path req)) | Jsr311 => false end in
   (* best match on every build of the implementation *)
   let best_ok := forallb (fun ot =>
@@ -409,6 +428,7 @@ Definition run_perm (c impl : sexp) : sexp :=
   Lst [ Lst (map (fun xt => routed_obs (snd xt) (fst xt)) (combine xs tables));
         Lst [ verdict "c03_order_independent" (implb scope same);
               verdict "c03_order_theorem_on_implementation" (implb hyp_order same);
+              verdict "c03_order_independent_through_servehttp" (implb scope same_serve);
               verdict "c03_best_match" best_ok ];
         A (L (match xs with x :: _ => class_of x | [] => "empty"%string end));
         Lst [ verdict "kf:K-C03-1" tie;
@@ -417,6 +437,9 @@ Definition run_perm (c impl : sexp) : sexp :=
                                                                    | Some (w, r) => negb (no_verbs (route_tpl w r))
                                                                    | None => false end
                                                         | _ => false end) (combine iobs tables));
+              verdict "kf:K-C03-3" (existsb (fun w => let p := fixed_prefix (ws_path (s_root w)) in
+                                                      str_eqb p (L "/") || str_eqb p []) (t_services t)
+                                    && Nat.ltb 1 (List.length (t_services t)));
               verdict "in_scope" scope;
               verdict "hypotheses_of_C03_order" hyp_order;
               verdict "permutations_built" (Nat.ltb 1 (List.length iobs)) ] ].
@@ -433,6 +456,7 @@ Definition sx_action (x : sexp) : action :=
   | 2 => AWrite a
   | 3 => AAttr a b
   | 4 => ASee a
+  | 6 => ADelHeader a
   | _ => APanic a
   end%Z.
 Definition sx_fscript (x : sexp) : fscript :=
@@ -504,21 +528,22 @@ Definition run_disp (c impl : sexp) : sexp :=
                negb (match assoc (rq_path req) (d_plain cfg) with Some _ => Z.eqb (sx_int (sx_nth 0 h)) 1 | None => false end))
               (sexp_eqb (of_strs (filter (fun e => has_prefix e (L "see:")) (sx_strs (sx_nth 5 io))))
                         (of_strs (expected_sees O cfg req)))) per in
-  let v_c07 := forallb (fun x =>
+  let labels_in_scope := negb (cfg_drops_ce cfg) in
+  let v_c07 := implb labels_in_scope (forallb (fun x =>
         let h := fst (fst x) in let io := snd x in
         encoding_ok O cfg (Z.eqb (sx_int (sx_nth 0 h)) 1) (sx_request (sx_nth 1 h)) (sx_str (sx_nth 2 h))
-                    (impl_hvalues H_ContentEncoding (sx_nth 2 io)) (sx_bool (sx_nth 4 io))) per in
-  let v_c07_label := forallb (fun x =>
+                    (impl_hvalues H_ContentEncoding (sx_nth 2 io)) (sx_bool (sx_nth 4 io))) per) in
+  let v_c07_label := implb labels_in_scope (forallb (fun x =>
         let h := fst (fst x) in let io := snd x in
         encoding_labelled (sx_request (sx_nth 1 h)) (sx_str (sx_nth 2 h))
-                          (impl_hvalues H_ContentEncoding (sx_nth 2 io)) (sx_bool (sx_nth 4 io))) per in
+                          (impl_hvalues H_ContentEncoding (sx_nth 2 io)) (sx_bool (sx_nth 4 io))) per) in
   (* "... otherwise the body is exactly the bytes written": the body the client decodes is the concatenation of
      what the scripts of this configuration wrote for this request (computed by the model), byte for byte *)
   let v_c07_body := forallb (fun x => sexp_eqb (sx_nth 3 (res_obs (snd (fst x)))) (sx_nth 3 (snd x))) per in
-  let v_c07_conc := forallb (fun x =>
+  let v_c07_conc := implb labels_in_scope (forallb (fun x =>
         let h := fst x in let io := snd x in
         encoding_labelled (sx_request (sx_nth 1 h)) (sx_str (sx_nth 2 h))
-                          (impl_hvalues H_ContentEncoding (sx_nth 2 io)) (sx_bool (sx_nth 4 io))) (combine hist i_conc) in
+                          (impl_hvalues H_ContentEncoding (sx_nth 2 io)) (sx_bool (sx_nth 4 io))) (combine hist i_conc)) in
   (* plain handlers (Handle / HandleWithFilter) have no recovery by construction: outside C10's scope *)
   let is_plain (h : sexp) := match assoc (rq_path (sx_request (sx_nth 1 h))) (d_plain cfg) with
                              | Some _ => Z.eqb (sx_int (sx_nth 0 h)) 1 | None => false end in
@@ -586,6 +611,7 @@ Definition run_disp (c impl : sexp) : sexp :=
               verdict "c13_every_acquired_compressor_released_once" v_c10_ledger;
               verdict "c10_body_complete" v_c10_decodes;
               verdict "c10_container_usable_afterwards" (sx_bool (sx_nth 4 impl));
+              verdict "c12_registration_not_blocked_after_any_history" (sx_bool (sx_nth 4 impl));
               verdict "c10_following_requests_served_as_fresh" v_c19_hist;
               verdict "c19_history_same_as_fresh" v_c19_hist;
               verdict "c19_concurrent_same_as_fresh" v_c19_conc ];
@@ -594,6 +620,9 @@ Definition run_disp (c impl : sexp) : sexp :=
               verdict "concurrent" (negb (Z.eqb mode 0));
               verdict "history_longer_than_one" (Nat.ltb 1 (List.length hist));
               verdict "has_plain_handler" (negb (Nat.eqb (List.length (d_plain cfg)) 0));
+              verdict "script_drops_content_encoding" (cfg_drops_ce cfg);
+              verdict "request_with_cancelled_context" (existsb (fun h => str_eqb (hget (sx_request (sx_nth 1 h)) (L "X-Verif-Cancelled")) (L "1")) hist);
+              verdict "client_gone" (existsb (fun h => str_eqb (hget (sx_request (sx_nth 1 h)) (L "X-Verif-Gone")) (L "1")) hist);
               verdict "trace_logging_on" (sx_bool (sx_nth 12 (sx_nth 1 c))) ] ].
 
 (* ---- domain "resp" (C15) ----
@@ -725,19 +754,38 @@ Definition reg_premises (ops : list regop) : bool :=
   let plainU := flat_map (fun o => match o with RHandle p _ => [p] | _ => [] end) ops in
   forallb (plain_compatible roots) plainU && reg_ops_ok roots plainU cs_init ops.
 
+(* a history in which the caller recovered from refused Handle calls and went on: an operation (5 pattern id) is a
+   Handle the implementation refused.  The model checks that it had to be refused (else it counts an anomaly) and leaves
+   the state as it is; so the history is, for C11, the history without these operations. *)
+Fixpoint reg_run_skip (s : cstate) (ops : list sexp) (k anom : nat) : cstate * option (nat * failure) * nat :=
+  match ops with
+  | [] => (s, None, anom)
+  | x :: rest =>
+      if Z.eqb (sx_int (sx_nth 0 x)) 5 then
+        match cs_step s (sx_rop_reg x) with
+        | inr _ => reg_run_skip s rest (S k) anom
+        | inl _ => reg_run_skip s rest (S k) (S anom)
+        end
+      else
+        match cs_step s (sx_rop_reg x) with
+        | inl s' => reg_run_skip s' rest (S k) anom
+        | inr f => (s, Some (k, f), anom)
+        end
+  end.
+
 Definition run_reg (c impl : sexp) : sexp :=
   let O := sx_oracles (sx_nth 0 c) in
   let rt := if Z.eqb (sx_int (sx_nth 1 c)) 0 then Curly else Jsr311 in
   let ops := map sx_rop_reg (sx_list (sx_nth 2 c)) in
   let probes := sx_list (sx_nth 3 c) in
-  let '(s, fail) := cs_run cs_init ops 0 in
+  let '(s, fail, anomalies) := reg_run_skip cs_init (sx_list (sx_nth 2 c)) 0 0 in
   let '(sf, ffail) := cs_fresh s in
   let ask st p :=
       let req := {| rq_method := sx_str (sx_nth 1 p); rq_path := sx_str (sx_nth 2 p); rq_headers := []; rq_clen := 0 |} in
       reg_answer_obs (if Z.eqb (sx_int (sx_nth 0 p)) 0 then serve_dispatch O rt st req else serve_http O rt st req) in
   let m_obs := Lst [ I (match fail with Some (k, _) => Z.of_nat k | None => (-1)%Z end);
                      Lst (map (ask s) probes); Lst (map (ask sf) probes);
-                     I (match ffail with Some _ => 1 | None => 0 end)%Z; I 1 ] in
+                     I (match ffail with Some _ => 1 | None => 0 end)%Z; I 1; of_nat anomalies ] in
   let i_failed := sx_int (sx_nth 0 impl) in
   let same := sexp_eqb (sx_nth 1 impl) (sx_nth 2 impl) in
   let cls := (if negb (Z.eqb i_failed (-1)) then "operation-failed"
@@ -750,7 +798,8 @@ Definition run_reg (c impl : sexp) : sexp :=
         A (L cls);
         Lst [ verdict "premises_of_C11" (reg_premises ops);
               verdict "has_plain_handler" (existsb (fun o => match o with RHandle _ _ => true | _ => false end) ops);
-              verdict "has_route_change" (existsb (fun o => match o with RRoute _ _ | RRemoveRoute _ _ _ => true | _ => false end) ops) ] ].
+              verdict "has_route_change" (existsb (fun o => match o with RRoute _ _ | RRemoveRoute _ _ _ => true | _ => false end) ops);
+              verdict "has_refused_handle" (existsb (fun x => Z.eqb (sx_int (sx_nth 0 x)) 5) (sx_list (sx_nth 2 c))) ] ].
 
 (* ---- domain "ent" (C16, C13) ----
    case: (oracles provider cap dflt mode requests); request = (ct ce value codec pretty enc broken (body gunzip inflate dec))
